@@ -249,7 +249,16 @@ pub(crate) fn bit_string_to_string(
                     let last_elements = &extended_value[pivot..];
                     // This char is allowed and may be truncated from the vector
                     let allowed_char = if bit_string.base.is_signed() {
-                        last_elements[0]
+                        match last_elements.first() {
+                            Some(sign) => *sign,
+                            // Nothing remains that could carry the sign
+                            None => {
+                                return Err(BitStringConversionError::IllegalTruncate(
+                                    0,
+                                    Latin1String::new(&extended_value),
+                                ))
+                            }
+                        }
                     } else {
                         b'0'
                     };
@@ -260,7 +269,7 @@ pub(crate) fn bit_string_to_string(
                         .position(|el| *el != allowed_char);
                     match idx {
                         Some(value) => {
-                            let real_idx = last_elements.len() + value - 1;
+                            let real_idx = (last_elements.len() + value).saturating_sub(1);
                             let erroneous_string = Latin1String::from_vec(extended_value);
                             Err(BitStringConversionError::IllegalTruncate(
                                 real_idx,
@@ -368,6 +377,30 @@ mod test_mod {
                 Latin1String::from_utf8_unchecked(result_string)
             )
         }
+    }
+
+    #[test]
+    fn test_illegal_truncate_to_length_zero() {
+        assert_eq!(
+            bit_string_to_string(&BitString::new(Some(0), BaseSpecifier::SX, "F")),
+            Err(BitStringConversionError::IllegalTruncate(
+                0,
+                Latin1String::new(b"1111")
+            ))
+        );
+
+        assert_eq!(
+            bit_string_to_string(&BitString::new(Some(0), BaseSpecifier::X, "1")),
+            Err(BitStringConversionError::IllegalTruncate(
+                0,
+                Latin1String::new(b"0001")
+            ))
+        );
+
+        assert_eq!(
+            bit_string_to_string(&BitString::new(Some(0), BaseSpecifier::X, "0")),
+            Ok(Latin1String::new(b""))
+        );
     }
 
     #[test]
